@@ -1470,12 +1470,14 @@ impl<'cmd> Parser<'cmd> {
             if !matcher.contains(arg.get_id()) {
                 for (id, val, default) in arg.default_vals_ifs.iter() {
                     let add = if let Some(a) = matcher.get(id) {
-                        match val {
-                            crate::builder::ArgPredicate::Equals(v) => {
-                                a.raw_vals_flatten().any(|value| v == value)
+                        // a value the other argument only has by default does not make it "used"
+                        a.check_explicit(&crate::builder::ArgPredicate::IsPresent)
+                            && match val {
+                                crate::builder::ArgPredicate::Equals(v) => {
+                                    a.raw_vals_flatten().any(|value| v == value)
+                                }
+                                crate::builder::ArgPredicate::IsPresent => true,
                             }
-                            crate::builder::ArgPredicate::IsPresent => true,
-                        }
                     } else {
                         false
                     };
